@@ -24,10 +24,11 @@
 namespace models {
 using namespace Pomerol;
 
-enum { ATOM = 0, DIMER = 1, KANAMORI = 2, CHAIN3 = 3, ATOM_FIELD = 4, DIMER_FIELD = 5, ATOMS2 = 6, N_MODELS = 7 };  // ATOMS2: two sites NOT connected by hopping
+enum { ATOM = 0, DIMER = 1, KANAMORI = 2, CHAIN3 = 3, ATOM_FIELD = 4, DIMER_FIELD = 5, ATOMS2 = 6, EXCH2 = 7, T2G = 8, N_MODELS = 9 };  // ATOMS2: two sites NOT connected by hopping
 
-inline int nmodes(int model) { return model == ATOM || model == ATOM_FIELD ? 2 : model == CHAIN3 ? 6 : 4; }
-inline const char* model_name(int m) { static const char* n[] = {"atom", "dimer", "kanamori", "chain3", "atom+field", "dimer+field", "two isolated atoms"}; return n[m % N_MODELS]; }
+inline int nmodes(int model) { return model == ATOM || model == ATOM_FIELD ? 2 : (model == CHAIN3 || model == T2G) ? 6 : 4; }
+inline bool is_big(int model) { return model == CHAIN3 || model == T2G; }   // 64-dimensional Fock space: thorough tier only
+inline const char* model_name(int m) { static const char* n[] = {"atom", "dimer", "kanamori", "chain3", "atom+field", "dimer+field", "two isolated atoms", "two sites with spin exchange", "t2g site (3 orbitals, Kanamori)"}; return n[m % N_MODELS]; }
 
 struct Params { double U[3], eps[3], t[2], J, h; };
 
@@ -78,6 +79,17 @@ struct Stage0 {
                 break;
             case KANAMORI:
                 L.addSite(new Lattice::Site("A", 2, 2));
+                LatticePresets::addCoulombP(&L, "A", p.U[0], p.J, p.eps[0]);
+                break;
+            case EXCH2:   // two Hubbard sites coupled by hopping and a Heisenberg exchange (SzSz + S+S- + S-S+ terms)
+                L.addSite(new Lattice::Site("A", 1, 2)); L.addSite(new Lattice::Site("B", 1, 2));
+                LatticePresets::addCoulombS(&L, "A", p.U[0], p.eps[0]);
+                LatticePresets::addCoulombS(&L, "B", p.U[1], p.eps[1]);
+                LatticePresets::addHopping(&L, "A", "B", hop(p.t[0], 0));
+                LatticePresets::addSS(&L, "A", "B", p.J);
+                break;
+            case T2G:
+                L.addSite(new Lattice::Site("A", 3, 2));
                 LatticePresets::addCoulombP(&L, "A", p.U[0], p.J, p.eps[0]);
                 break;
             case CHAIN3:
